@@ -34,7 +34,8 @@
    of static_vptr); class_map is an association list read through Policy::type_index = Model.Registry.proj. *)
 From Coq Require Import List NArith.
 Import ListNotations.
-From Y2 Require Import Model.Registry Model.Compile Model.MiniLat Gen.GenLat Proofs.LatSource Proofs.CovSource.
+From Y2 Require Import Model.Registry Model.Compile Spec.Dispatch Model.MiniLat Gen.GenLat Proofs.LatSource Proofs.CovSource
+                       Proofs.LatticeProofs Proofs.LatCompose.
 
 Theorem C08_source_lattice_front : forall R,
   let keys := class_keys R in
@@ -76,6 +77,30 @@ Theorem C04_source_covariant : forall derived n rank,
   cv_all (S n) gen_covariant derived (seq 0 n) (repeat [] n) = Some (map (covariant n derived) (seq 0 n)).
 Proof. exact src_covariant. Qed.
 Print Assumptions C04_source_covariant.
+
+(* all of it, on every registry whose inheritance graph is acyclic and whose listed bases are registered: the seven translated
+   pieces, run one after the other as augment_classes runs them, build the lattice Model.Compile.augment_classes returns -
+   the side conditions of the theorems above (no class lists itself; entries are class indexes; direct_derived has no cycle)
+   are discharged from the lattice proofs *)
+Theorem C06_source_augment_classes : forall R, acyclic R -> bases_registered R ->
+  let keys := class_keys R in
+  let n := length keys in
+  exists tb0 tb1,
+    let L := lattice_from R (map (fun l => dedupn l []) tb1) in
+    augment_classes R = Ok L /\
+    (exists m, run_collect (proj R) gen_collect (r_classes R) [] [] = Some (m, l_info L)
+               /\ forall t, assocN (proj R t) m = class_of R keys t) /\
+    run_bases (class_of R keys) gen_bases (r_classes R) (repeat [] n) = Ok tb0 /\
+    run_closure (S (n * n)) gen_closure tb0 = Ok tb1 /\
+    forall marks W0 cm M loc, length W0 = n -> (length marks = n /\ forall k, nth k marks 0 <= cm) ->
+      exists s1 s2 s3,
+        mk_exec gen_dedup env0 (mk_mk tb1 (repeat [] n) (repeat [] n) marks W0 cm M loc) = Some s1 /\
+        mk_exec gen_direct env0 s1 = Some s2 /\
+        mk_exec gen_derived env0 s2 = Some s3 /\
+        m_tb s3 = l_tb L /\ m_dir s3 = l_direct L /\ m_der s3 = l_derived L /\
+        cv_all (S n) gen_covariant (m_der s3) (seq 0 n) (repeat [] n) = Some (l_cov L).
+Proof. exact src_augment_classes. Qed.
+Print Assumptions C06_source_augment_classes.
 
 (* non-vacuity: the diamond's direct_derived table; rank = longest path downwards *)
 Example ex_cov :
